@@ -45,12 +45,15 @@ func NewOrderedPartition(n, m int, vertexClasses [][]int) *CanonicalOrderedParti
 		binDividers = binDividers[:len(vertexClasses)]
 		index := 0
 		for i := range vertexClasses {
+			start := index
 			for j := range vertexClasses[i] {
 				v := vertexClasses[i][j]
 				order[index] = v
-				inCell[v] = j
+				inCell[v] = i
 				index++
 			}
+			//The order must be sorted within each bin.
+			ints.Sort(order[start:index])
 			binDividers[i] = index
 		}
 	}
@@ -59,8 +62,11 @@ func NewOrderedPartition(n, m int, vertexClasses [][]int) *CanonicalOrderedParti
 	for i := range binAges {
 		binAges[i] = 0
 	}
-	binsToCheck := make([]int, 1, n)
-	binsToCheck[0] = 0
+	//Every initial bin could shatter other bins.
+	binsToCheck := make([]int, len(binDividers), n)
+	for i := range binsToCheck {
+		binsToCheck[i] = i
+	}
 	value := make([]int, 0, m)
 	return &CanonicalOrderedPartition{order: order, binDividers: binDividers, binAges: binAges, binsToCheck: binsToCheck, value: value, inCell: inCell}
 }
@@ -95,12 +101,15 @@ func (op *CanonicalOrderedPartition) Reset(n, m int, vertexClasses [][]int) {
 		op.binDividers = op.binDividers[:len(vertexClasses)]
 		index := 0
 		for i := range vertexClasses {
+			start := index
 			for j := range vertexClasses[i] {
 				v := vertexClasses[i][j]
 				op.order[index] = v
-				op.inCell[v] = j
+				op.inCell[v] = i
 				index++
 			}
+			//The order must be sorted within each bin.
+			ints.Sort(op.order[start:index])
 			op.binDividers[i] = index
 		}
 	}
@@ -110,9 +119,10 @@ func (op *CanonicalOrderedPartition) Reset(n, m int, vertexClasses [][]int) {
 		op.binAges[i] = 0
 	}
 
-	if n > 0 {
-		op.binsToCheck = op.binsToCheck[:1]
-		op.binsToCheck[0] = 0
+	//Every initial bin could shatter other bins.
+	op.binsToCheck = op.binsToCheck[:len(op.binDividers)]
+	for i := range op.binsToCheck {
+		op.binsToCheck[i] = i
 	}
 
 	op.value = op.value[:0]
